@@ -1,8 +1,17 @@
 import Martian.Lemmas.HttpSpec
+import Martian.Props.C14.AnyCase
+import Martian.Props.C14.Exchange
+import Martian.Props.C14.Elements
 /-!
 C14 — The spec-compliance stack strips hop-by-hop headers, stamps Via and stops loops.
-Only property theorems, non-vacuity examples, and (for the open findings F14b/F14c) the
-counterexample witnesses and the `_partial` theorems live here.
+Only property theorems, non-vacuity examples, and (for the one open finding, the Connection-listed
+Via loop of F14b) the counterexample witness and the `_partial` theorem live here. Two more
+groups are in `Props/C14/AnyCase.lean` (names in any letter case, non-canonical keys,
+Proxy-Connection) and `Props/C14/Exchange.lean` (one exchange through a proxy using the stack).
+
+The stack is `httpspec.NewStack` after the two C14 repairs: request side framing, hop-by-hop,
+forwarded, via, user group; response side user group, via, hop-by-hop; every member runs and
+the errors are collected (`aggregateErrors = true`).
 
 Quantifiers: every header `h : Header` (any number of keys, lines per key, bytes per line —
 "all header multisets"), every request environment `env` (protocol version, proxy name and
@@ -16,10 +25,6 @@ namespace Martian.Props.C14
 open Martian Martian.Go Martian.Go.Header Martian.HttpSpec
 
 /-! ## 1. hop-by-hop headers -/
-
-/-- RFC 7230 §6.1 (and the field definitions that say "hop-by-hop"): the fixed set. -/
-def rfcHopByHop : List Bytes := ["Connection", "Keep-Alive", "Proxy-Authenticate", "Proxy-Authorization", "TE", "Trailer",
-  "Transfer-Encoding", "Upgrade"].map strBytes
 
 /-- Finite table check: every RFC hop-by-hop field is in the list literal of the source
 (`Generated.HttpSpec.hopByHop`, regenerated on every run). Deleting one breaks this theorem. -/
@@ -51,14 +56,8 @@ theorem hbh_connection_listed_removed (h : Header) :
 /-- "In any case": a token that differs from a header name only in letter case denotes the same
 canonical key, i.e. the key under which net/http stores that header. -/
 theorem connection_token_any_case (name tok : Bytes) (hn : name.all validHeaderFieldByte = true)
-    (hc : toLower tok = toLower name) : canonKey tok = canonKey name := by
-  have ht : tok.all validHeaderFieldByte = true := by
-    have h1 : (toLower tok).all validHeaderFieldByte = tok.all validHeaderFieldByte := by
-      simp only [toLower, List.all_map]; congr 1; funext c; simp [valid_toLowerB]
-    have h2 : (toLower name).all validHeaderFieldByte = name.all validHeaderFieldByte := by
-      simp only [toLower, List.all_map]; congr 1; funext c; simp [valid_toLowerB]
-    rw [← h1, hc, h2, hn]
-  rw [← canonKey_toLower tok ht, hc, canonKey_toLower name hn]
+    (hc : toLower tok = toLower name) : canonKey tok = canonKey name :=
+  canonKey_eq_of_toLower_eq name tok hn hc
 
 /-- Every other header is untouched: the result is exactly the input with the removed keys
 filtered out — nothing added, no value changed, order of values (and of keys) kept. -/
@@ -74,17 +73,14 @@ theorem stack_request_no_hop_by_hop (env : Env) (h : Header) (k : Bytes)
   have hst : k ≠ kVia ∧ k ∉ fwdKeys := by
     simp only [stampedKeys, fwdKeys, List.mem_cons, List.not_mem_nil, or_false, not_or] at hs ⊢
     exact ⟨hs.1, hs.2⟩
-  have hA : k ∉ keys (fwdHeader env (removeHopByHop h)) := by
+  have hB : k ∉ keys (preVia env h) := by
     intro hm
-    rcases fwd_keys hm with h1 | h1
+    rcases preVia_keys hm with h1 | h1
     · exact hst.2 h1
-    · exact removed_not_in_keys hk h1
-  have hB : k ∉ keys (framingHeader (fwdHeader env (removeHopByHop h))).1 := fun hm => hA ((framing_other _).2 k hm)
-  rcases stackReq_cases env h with ⟨e, _, hr⟩ | ⟨_, _, hr⟩ | ⟨_, _, hr⟩
-  · rw [hr]; dsimp only; exact hB
-  · rw [hr]; dsimp only; exact hB
+    · exact h1.2 hk
+  rcases stackReq_cases env h with ⟨_, hr⟩ | ⟨_, hr⟩
+  · rw [hr]; exact hB
   · rw [hr]
-    dsimp only
     intro hm
     rcases mem_keys_set.mp hm with h1 | h1
     · rw [canon_kVia] at h1; exact hst.1 h1
@@ -98,14 +94,25 @@ theorem stack_request_others_untouched (env : Env) (h : Header) (k : Bytes)
   have hst : k ≠ kVia ∧ k ∉ fwdKeys := by
     simp only [stampedKeys, fwdKeys, List.mem_cons, List.not_mem_nil, or_false, not_or] at hs ⊢
     exact ⟨hs.1, hs.2⟩
-  have hB : index (framingHeader (fwdHeader env (removeHopByHop h))).1 k = index h k := by
-    rw [(framing_other _).1 k hcl, fwd_index_other hst.2, kept_index hk]
-  rcases stackReq_cases env h with ⟨e, _, hr⟩ | ⟨_, _, hr⟩ | ⟨_, _, hr⟩
-  · rw [hr]; dsimp only; exact hB
-  · rw [hr]; dsimp only; exact hB
+  have hB : index (preVia env h) k = index h k := by
+    rw [preVia_index_other hst.2, if_neg hk, (framing_other h).1 k hcl]
+  rcases stackReq_cases env h with ⟨_, hr⟩ | ⟨_, hr⟩
+  · rw [hr]; exact hB
   · rw [hr]
-    dsimp only
+    show index (set _ kVia _) k = _
     rw [index_set, canon_kVia, if_neg hst.1]
+    exact hB
+
+/-- Request side of the stack, `Content-Length`: gone when Connection-listed, else exactly what
+the framing modifier alone leaves (`framing_content_length` below says what that is). -/
+theorem stack_content_length (env : Env) (h : Header) :
+    index (stackReq env h).1.hdr kCL = if kCL ∈ removedKeys h then [] else index (framingHeader h).1 kCL := by
+  have hB := @preVia_index_other env h kCL kCL_notin_fwdKeys
+  rcases stackReq_cases env h with ⟨_, hr⟩ | ⟨_, hr⟩
+  · rw [hr]; exact hB
+  · rw [hr]
+    show index (set _ kVia _) kCL = _
+    rw [index_set, canon_kVia, if_neg (Ne.symm kVia_ne_kCL)]
     exact hB
 
 /-- Response side of the stack without a loop: status and error-free, hop-by-hop headers gone,
@@ -166,133 +173,82 @@ theorem via_line_shape (env : Env) (old : List Bytes) :
 was named in `Connection` (then hop-by-hop removal has deleted it). -/
 def effectiveVia (h : Header) : List Bytes := if kVia ∈ removedKeys h then [] else index h kVia
 
-theorem stack_via_seen (env : Env) (h : Header) :
-    index (framingHeader (fwdHeader env (removeHopByHop h))).1 kVia = effectiveVia h := by
-  have hk := kne
-  have hv : kVia ∉ fwdKeys := by
-    simp only [fwdKeys, List.mem_cons, List.not_mem_nil, or_false, not_or]
-    exact ⟨hk.2.2.2.2.2.2.1, hk.2.2.2.2.2.2.2.1, hk.2.2.2.2.2.2.2.2.1, hk.2.2.2.2.2.2.2.2.2.1⟩
-  rw [(framing_other _).1 kVia hk.2.2.2.2.2.2.2.2.2.2.1, fwd_index_other hv]
-  unfold effectiveVia
-  split
-  · next hm => exact removed_index hm
-  · next hm => exact kept_index hm
+theorem stack_via_seen (env : Env) (h : Header) : index (preVia env h) kVia = effectiveVia h := by
+  rw [preVia_index_other kVia_notin_fwdKeys, (framing_other h).1 kVia kVia_ne_kCL]
+  rfl
 
-/-- Stack: a request that is forwarded without error carries exactly one `Via` line: the
-existing chain followed by this proxy's entry. -/
-theorem stack_via_exactly_one_appended_last (env : Env) (h : Header) (hok : (stackReq env h).2 = []) :
+/-- Whether the stack reports a loop: exactly when the chain it sees names this instance. -/
+def stackLoop (env : Env) (h : Header) : Bool := hasLoop (join (effectiveVia h) commaSp) (tag env)
+
+/-- The errors of the request side, exactly: the framing modifier's verdict on the header as
+received, then the loop error iff the surviving Via chain names this instance. Nothing else, no
+member pre-empts another. -/
+theorem stack_errors_exact (env : Env) (h : Header) :
+    (stackReq env h).2 = framingErrs h ++ (if stackLoop env h then [.loop] else []) ∧
+    (stackReq env h).1.skip = stackLoop env h ∧ (stackReq env h).1.loopKey = stackLoop env h := by
+  unfold stackLoop
+  rw [← stack_via_seen env h]
+  rcases stackReq_cases env h with ⟨hl, hr⟩ | ⟨hl, hr⟩
+  · rw [hr, hl]; exact ⟨rfl, rfl, rfl⟩
+  · rw [hr, hl]; exact ⟨by simp, rfl, rfl⟩
+
+/-- Stack: every request in which no loop is seen — flagged by the framing modifier or not — is
+not skipped and carries exactly one `Via` line: the existing chain followed by this proxy's entry. -/
+theorem stack_via_exactly_one_appended_last (env : Env) (h : Header) (hok : Err.loop ∉ (stackReq env h).2) :
     index (stackReq env h).1.hdr kVia = [viaLine env (effectiveVia h)] ∧ (stackReq env h).1.skip = false := by
-  rcases stackReq_cases env h with ⟨e, _, hr⟩ | ⟨_, _, hr⟩ | ⟨_, _, hr⟩
-  · rw [hr] at hok; simp at hok
+  rcases stackReq_cases env h with ⟨_, hr⟩ | ⟨_, hr⟩
   · rw [hr] at hok; simp at hok
   · rw [hr]
     refine ⟨?_, rfl⟩
-    dsimp only
+    show index (set _ kVia _) kVia = _
     rw [index_set, canon_kVia, if_pos rfl, stack_via_seen]
 
 /-- Stack: a loop is never reported for a request whose Via chain does not name this instance. -/
 theorem stack_no_false_loop (env : Env) (h : Header)
     (hn : hasLoop (join (index h kVia) commaSp) (tag env) = false) :
     Err.loop ∉ (stackReq env h).2 ∧ (stackReq env h).1.skip = false := by
-  have hseen : hasLoop (join (index (framingHeader (fwdHeader env (removeHopByHop h))).1 kVia) commaSp) (tag env) = false := by
-    rw [stack_via_seen]
-    unfold effectiveVia
+  have hl : stackLoop env h = false := by
+    unfold stackLoop effectiveVia
     split
     · exact hasLoop_nil _
     · exact hn
-  rcases stackReq_cases env h with ⟨e, he, hr⟩ | ⟨_, hl, hr⟩ | ⟨_, _, hr⟩
-  · rw [hr]
-    refine ⟨?_, rfl⟩
-    unfold framingHeader at he
-    cases hc : framingCL (fwdHeader env (removeHopByHop h)) with
-    | none => rw [hc] at he; simp at he; subst he; simp
-    | some h1 =>
-      rw [hc] at he
-      rcases framingTE_err h1 with h0 | h0
-      · simp [h0] at he
-      · rw [h0] at he; injection he with he; subst he; simp
-  · rw [hseen] at hl; exact Bool.noConfusion hl
-  · rw [hr]; simp
+  have he := stack_errors_exact env h
+  rw [hl] at he
+  refine ⟨?_, he.2.1⟩
+  rw [he.1]
+  simpa using framingErrs_no_loop h
 
 /-- Response side of the stack for a request on which the loop was detected (context key
-set): the response is turned into a 400 and the loop error is reported. -/
+set): the response is turned into a 400, the loop error is reported, and (every member runs)
+the hop-by-hop headers are removed as well. -/
 theorem stack_response_loop_400 (s : ResS) :
-    (stackRes true s).1.status = 400 ∧ (stackRes true s).2 = [.loop] := by
+    (stackRes true s).1.status = 400 ∧ (stackRes true s).2 = [.loop] ∧
+    (stackRes true s).1.hdr = removeHopByHop s.hdr := by
   rw [stackRes_unfold]; simp
 
 /-- The full loop clause for one header: a Via chain naming this instance ⇒ loop error, round
 trip skipped (never sent upstream), context key set, and hence 400. -/
 def LoopStopped (env : Env) (h : Header) : Prop :=
   hasLoop (join (index h kVia) commaSp) (tag env) = true →
-    (stackReq env h).2 = [.loop] ∧ sentUpstream (stackReq env h).1 = false ∧
+    Err.loop ∈ (stackReq env h).2 ∧ sentUpstream (stackReq env h).1 = false ∧
     (stackReq env h).1.loopKey = true ∧ ∀ res, (stackRes (stackReq env h).1.loopKey res).1.status = 400
 
-/-- What the framing modifier answers inside the stack (after hop-by-hop removal and the
-forwarded modifier). -/
-def stackFramingErr (env : Env) (h : Header) : Option Err := (framingHeader (fwdHeader env (removeHopByHop h))).2
-
-/-- PARTIAL (open findings F14b/F14c): the loop clause holds for every header in which `Via` is
-not itself Connection-listed and which the framing modifier does not flag first. Missing: the
-two excluded classes, for which `loop_counterexample_*` show the clause is false. -/
-theorem loop_stopped_partial (env : Env) (h : Header)
-    (hv : kVia ∉ removedKeys h) (hf : stackFramingErr env h = none) : LoopStopped env h := by
+/-- PARTIAL (open finding F14b, Connection-listed Via): the loop clause holds for every header
+in which `Via` is not itself Connection-listed — whatever the framing modifier says about it
+(F14c is repaired). Missing: the excluded class, for which `loop_counterexample_via_listed`
+shows the clause is false. -/
+theorem loop_stopped_partial (env : Env) (h : Header) (hv : kVia ∉ removedKeys h) : LoopStopped env h := by
   intro hn
-  have hseen : hasLoop (join (index (framingHeader (fwdHeader env (removeHopByHop h))).1 kVia) commaSp) (tag env) = true := by
-    rw [stack_via_seen]; unfold effectiveVia; rw [if_neg hv]; exact hn
-  rcases stackReq_cases env h with ⟨e, he, _⟩ | ⟨_, _, hr⟩ | ⟨_, hl, _⟩
-  · unfold stackFramingErr at hf; rw [hf] at he; cases he
-  · rw [hr]
-    refine ⟨rfl, rfl, rfl, ?_⟩
-    intro res
+  have hl : stackLoop env h = true := by
+    unfold stackLoop effectiveVia; rw [if_neg hv]; exact hn
+  have he := stack_errors_exact env h
+  rw [hl] at he
+  refine ⟨?_, ?_, he.2.2, ?_⟩
+  · rw [he.1]; simp
+  · simp [sentUpstream, he.2.1]
+  · intro res
+    rw [he.2.2]
     exact (stack_response_loop_400 res).1
-  · rw [hseen] at hl; exact Bool.noConfusion hl
-
-/-- When does the framing modifier pass inside the stack? Whenever Content-Length is absent,
-Connection-listed, or its values agree (Transfer-Encoding is always gone by then). -/
-theorem stack_framing_passes (env : Env) (h : Header)
-    (hc : kCL ∈ removedKeys h ∨ index h kCL = [] ∨ clScan (clTokens h) [] ≠ none) : stackFramingErr env h = none := by
-  have hk := kne
-  have hclf : kCL ∉ fwdKeys := by
-    simp only [fwdKeys, List.mem_cons, List.not_mem_nil, or_false, not_or]
-    exact ⟨hk.2.2.2.2.2.2.2.2.2.2.2.1, hk.2.2.2.2.2.2.2.2.2.2.2.2.1, hk.2.2.2.2.2.2.2.2.2.2.2.2.2.1, hk.2.2.2.2.2.2.2.2.2.2.2.2.2.2.1⟩
-  have htef : kTE ∉ fwdKeys := by
-    simp only [fwdKeys, List.mem_cons, List.not_mem_nil, or_false, not_or]
-    exact ⟨hk.2.2.2.2.2.2.2.2.2.2.2.2.2.2.2.1, hk.2.2.2.2.2.2.2.2.2.2.2.2.2.2.2.2.1, hk.2.2.2.2.2.2.2.2.2.2.2.2.2.2.2.2.2.1,
-      hk.2.2.2.2.2.2.2.2.2.2.2.2.2.2.2.2.2.2.1⟩
-  have hte : kTE ∈ removedKeys h := by
-    simp only [removedKeys, List.map_append, List.mem_append]
-    exact Or.inr (by decide)
-  have hte0 : index (fwdHeader env (removeHopByHop h)) kTE = [] := by
-    rw [fwd_index_other htef]; exact removed_index hte
-  have hcl : index (fwdHeader env (removeHopByHop h)) kCL = if kCL ∈ removedKeys h then [] else index h kCL := by
-    rw [fwd_index_other hclf]
-    split
-    · next hm => exact removed_index hm
-    · next hm => exact kept_index hm
-  have htok : clTokens (fwdHeader env (removeHopByHop h)) = if kCL ∈ removedKeys h then [] else clTokens h := by
-    unfold clTokens; rw [hcl]; split <;> rfl
-  unfold stackFramingErr framingHeader
-  cases hcs : framingCL (fwdHeader env (removeHopByHop h)) with
-  | none =>
-    exfalso
-    unfold framingCL at hcs
-    rw [hcl, htok] at hcs
-    by_cases hm : kCL ∈ removedKeys h
-    · simp [hm] at hcs
-    · simp only [hm, if_false] at hcs
-      rcases hc with h1 | h1 | h1
-      · exact hm h1
-      · simp [h1] at hcs
-      · split at hcs
-        · split at hcs
-          · next hn => exact h1 hn
-          · cases hcs
-        · cases hcs
-  | some h1 =>
-    have := (framingCL_some hcs).1 kTE hk.2.2.2.2.2.2.2.2.2.2.2.2.2.2.2.2.2.2.2.1
-    have h10 : index h1 kTE = [] := by rw [this]; exact hte0
-    show (framingTE h1).2 = none
-    rw [framingTE_absent h10]
 
 /-! ## 3. X-Forwarded-* -/
 
@@ -323,20 +279,55 @@ theorem stack_xff (env : Env) (h : Header) :
     index (stackReq env h).1.hdr kXFF =
       [xffLine env (if kXFF ∈ removedKeys h then [] else index h kXFF)] := by
   have hk := kne
-  have hB : index (framingHeader (fwdHeader env (removeHopByHop h))).1 kXFF =
-      [xffLine env (if kXFF ∈ removedKeys h then [] else index h kXFF)] := by
-    rw [(framing_other _).1 kXFF (Ne.symm hk.2.2.2.2.2.2.2.2.2.2.2.1), fwd_index_xff]
-    congr 2
+  have hidx : index (removeHopByHop (framingHeader h).1) kXFF = if kXFF ∈ removedKeys h then [] else index h kXFF := by
     split
-    · next hm => exact removed_index hm
-    · next hm => exact kept_index hm
-  rcases stackReq_cases env h with ⟨e, _, hr⟩ | ⟨_, _, hr⟩ | ⟨_, _, hr⟩
-  · rw [hr]; dsimp only; exact hB
-  · rw [hr]; dsimp only; exact hB
+    · next hm => exact removed_index (by rw [removedKeys_framing]; exact hm)
+    · next hm =>
+      rw [kept_index (by rw [removedKeys_framing]; exact hm), (framing_other h).1 kXFF (Ne.symm hk.2.2.2.2.2.2.2.2.2.2.2.1)]
+  have hB : index (preVia env h) kXFF = [xffLine env (if kXFF ∈ removedKeys h then [] else index h kXFF)] := by
+    unfold preVia
+    rw [fwd_index_xff, hidx]
+  rcases stackReq_cases env h with ⟨_, hr⟩ | ⟨_, hr⟩
+  · rw [hr]; exact hB
   · rw [hr]
-    dsimp only
+    show index (set _ kVia _) kXFF = _
     rw [index_set, canon_kVia, if_neg (Ne.symm hk.2.2.2.2.2.2.1)]
     exact hB
+
+/-- Stack, every outcome: `X-Forwarded-Proto`, `-Host`, `-Url` keep their surviving lines when
+the first of them is non-empty, else reflect the request (surviving = the original lines unless
+the header was Connection-listed). -/
+theorem stack_proto_host_url (env : Env) (h : Header) :
+    let old := fun k => if k ∈ removedKeys h then [] else index h k
+    index (stackReq env h).1.hdr kXFProto = (if (old kXFProto).headD [] = [] then [env.scheme] else old kXFProto) ∧
+    index (stackReq env h).1.hdr kXFHost = (if (old kXFHost).headD [] = [] then [env.host] else old kXFHost) ∧
+    index (stackReq env h).1.hdr kXFUrl = (if (old kXFUrl).headD [] = [] then [env.url] else old kXFUrl) := by
+  intro old
+  have hk := kne
+  have hbase : ∀ k ∈ fwdKeys, index (removeHopByHop (framingHeader h).1) k = old k := by
+    intro k hkf
+    show _ = if k ∈ removedKeys h then [] else index h k
+    split
+    · next hm => exact removed_index (by rw [removedKeys_framing]; exact hm)
+    · next hm => rw [kept_index (by rw [removedKeys_framing]; exact hm), (framing_other h).1 k (fwdKeys_ne_kCL k hkf)]
+  have hfin : ∀ k ∈ fwdKeys, index (stackReq env h).1.hdr k = index (preVia env h) k := by
+    intro k hkf
+    rcases stackReq_cases env h with ⟨_, hr⟩ | ⟨_, hr⟩
+    · rw [hr]
+    · rw [hr]
+      show index (set _ kVia _) k = _
+      rw [index_set, canon_kVia, if_neg (fwdKeys_ne_kVia k hkf)]
+  have hp := fwd_index_proto env (removeHopByHop (framingHeader h).1)
+  have hh := fwd_index_host env (removeHopByHop (framingHeader h).1)
+  have hu := fwd_index_url env (removeHopByHop (framingHeader h).1)
+  simp only [Header.get, Header.values, canon_kXFProto, canon_kXFHost, canon_kXFUrl] at hp hh hu
+  rw [hbase kXFProto (by decide)] at hp
+  rw [hbase kXFHost (by decide)] at hh
+  rw [hbase kXFUrl (by decide)] at hu
+  refine ⟨?_, ?_, ?_⟩
+  · rw [hfin kXFProto (by decide)]; exact hp
+  · rw [hfin kXFHost (by decide)]; exact hh
+  · rw [hfin kXFUrl (by decide)]; exact hu
 
 /-! ## 4. framing errors -/
 
@@ -352,81 +343,159 @@ theorem framing_flagged (h : Header) (hb : clConflict h ∨ teBad h) : (framingH
   | some h1 =>
     rcases hb with hb | hb
     · rw [framingCL_conflict hb] at hc; cases hc
-    · have hk := kne
-      have hi := (framingCL_some hc).1 kTE hk.2.2.2.2.2.2.2.2.2.2.2.2.2.2.2.2.2.2.2.1
+    · have hi := (framingCL_some hc).1 kTE kTE_ne_kCL
       have hp : index h1 kTE ≠ [] := by rw [hi]; exact hb.1
       have hl : teLast h1 ≠ chunked := by unfold teLast; rw [hi]; exact hb.2
       show (framingTE h1).2 ≠ none
       rw [framingTE_bad hp hl]; simp
 
+/-- The framing modifier never invents an error: without Content-Length and Transfer-Encoding
+it returns none and leaves the header alone. -/
+theorem framing_no_spurious_error (h : Header) (hc : index h kCL = []) (ht : index h kTE = []) :
+    framingHeader h = (h, none) := by
+  unfold framingHeader
+  rw [framingCL_of_absent hc]
+  exact framingTE_absent ht
+
+/-- What the framing modifier leaves as `Content-Length` when it does not object: nothing when a
+Transfer-Encoding (ending in chunked) is present, else the one agreed value, else nothing. -/
+theorem framing_content_length (h : Header) (hok : (framingHeader h).2 = none) :
+    index (framingHeader h).1 kCL =
+      if index h kTE ≠ [] then []
+      else if index h kCL ≠ [] then [(clScan (clTokens h) []).getD []] else [] := by
+  unfold framingHeader at hok ⊢
+  cases hc : framingCL h with
+  | none => rw [hc] at hok; simp at hok
+  | some h1 =>
+    rw [hc] at hok
+    have hte : index h1 kTE = index h kTE := (framingCL_some hc).1 kTE kTE_ne_kCL
+    have hcl : index h1 kCL = if index h kCL ≠ [] then [(clScan (clTokens h) []).getD []] else [] := by
+      unfold framingCL at hc
+      by_cases hp : (index h kCL).length > 0
+      · have hne : index h kCL ≠ [] := List.length_pos_iff.mp hp
+        simp only [hp, if_true] at hc
+        cases hs : clScan (clTokens h) [] with
+        | none => rw [hs] at hc; cases hc
+        | some len =>
+          rw [hs] at hc
+          injection hc with hc
+          subst hc
+          simp [index_set, canon_kCL, hne]
+      · have h0 : index h kCL = [] := by
+          cases hi : index h kCL with
+          | nil => rfl
+          | cons a r => rw [hi] at hp; simp at hp
+        simp only [hp, if_false] at hc
+        injection hc with hc
+        subst hc
+        simp [h0]
+    show index (framingTE h1).1 kCL = _
+    by_cases ht : index h kTE = []
+    · rw [framingTE_absent (by rw [hte]; exact ht)]
+      simp only [ht, ne_eq, not_true_eq_false, if_false]
+      exact hcl
+    · have hp : (index h1 kTE).length > 0 := List.length_pos_iff.mpr (by rw [hte]; exact ht)
+      simp only [ne_eq, ht, not_false_eq_true, if_true]
+      unfold framingTE at hok ⊢
+      simp only [hp, if_true] at hok ⊢
+      split
+      · next hb => simp [hb] at hok
+      · simp [index_del, canon_kCL]
+
 /-- The framing clause for the whole stack, for one header. -/
 def FramingFlagged (env : Env) (h : Header) : Prop := clConflict h ∨ teBad h → (stackReq env h).2 ≠ []
 
-/-- PARTIAL (open finding F14b): inside the stack, conflicting Content-Length values are
-flagged (error `cl`, nothing skipped) provided Content-Length is not Connection-listed.
-Missing: Transfer-Encoding (always removed before the check) and Connection-listed
-Content-Length — `framing_counterexample_*` show the clause is false there. -/
-theorem framing_flagged_partial (env : Env) (h : Header) (hcl : kCL ∉ removedKeys h) (hc : clConflict h) :
-    (stackReq env h).2 = [.cl] ∧ (stackReq env h).1.skip = false := by
-  have hk := kne
-  have hclf : kCL ∉ fwdKeys := by
-    simp only [fwdKeys, List.mem_cons, List.not_mem_nil, or_false, not_or]
-    exact ⟨hk.2.2.2.2.2.2.2.2.2.2.2.1, hk.2.2.2.2.2.2.2.2.2.2.2.2.1, hk.2.2.2.2.2.2.2.2.2.2.2.2.2.1, hk.2.2.2.2.2.2.2.2.2.2.2.2.2.2.1⟩
-  have hi : index (fwdHeader env (removeHopByHop h)) kCL = index h kCL := by
-    rw [fwd_index_other hclf, kept_index hcl]
-  have hc' : clConflict (fwdHeader env (removeHopByHop h)) := by
-    unfold clConflict clTokens at hc ⊢
-    rw [hi]; exact hc
-  have hf : framingHeader (fwdHeader env (removeHopByHop h)) = (fwdHeader env (removeHopByHop h), some .cl) := by
-    unfold framingHeader; rw [framingCL_conflict hc']
-  rcases stackReq_cases env h with ⟨e, he, hr⟩ | ⟨he, _, _⟩ | ⟨he, _, _⟩
-  · rw [hr]; rw [hf] at he; injection he with he; subst he; exact ⟨rfl, rfl⟩
-  · rw [hf] at he; cases he
-  · rw [hf] at he; cases he
+/-- FULL (F14b repaired): inside the stack, every request with conflicting Content-Length values
+or a Transfer-Encoding not ending in chunked — Connection-listed or not — is flagged with the
+framing modifier's own error; and the stack's framing verdict is always exactly that of the
+framing modifier alone on the header as received. -/
+theorem stack_framing_flagged (env : Env) (h : Header) :
+    FramingFlagged env h ∧
+    (clConflict h ∨ teBad h → Err.cl ∈ (stackReq env h).2 ∨ Err.te ∈ (stackReq env h).2) ∧
+    (∀ e, e ≠ Err.loop → (e ∈ (stackReq env h).2 ↔ (framingHeader h).2 = some e)) := by
+  have he := (stack_errors_exact env h).1
+  have hmem : ∀ e, e ≠ Err.loop → (e ∈ (stackReq env h).2 ↔ (framingHeader h).2 = some e) := by
+    intro e hne
+    rw [he]
+    unfold framingErrs
+    cases hf : (framingHeader h).2 with
+    | none => cases stackLoop env h <;> simp [hne]
+    | some e' =>
+      cases stackLoop env h <;> simp [hne, eq_comm]
+  have hfl : clConflict h ∨ teBad h → Err.cl ∈ (stackReq env h).2 ∨ Err.te ∈ (stackReq env h).2 := by
+    intro hb
+    have hne := framing_flagged h hb
+    cases hf : (framingHeader h).2 with
+    | none => exact absurd hf hne
+    | some e =>
+      have hnl : e ≠ Err.loop := by
+        intro hl
+        have := framingErrs_no_loop h
+        unfold framingErrs at this
+        rw [hf, hl] at this
+        simp at this
+      have hin : e ∈ (stackReq env h).2 := (hmem e hnl).mpr hf
+      cases e with
+      | cl => exact Or.inl hin
+      | te => exact Or.inr hin
+      | loop => exact absurd rfl hnl
+      | unknown =>
+        exfalso
+        unfold framingHeader at hf
+        cases hc : framingCL h with
+        | none => rw [hc] at hf; simp at hf
+        | some h1 =>
+          rw [hc] at hf
+          rcases framingTE_err h1 with h0 | h0
+          · simp [h0] at hf
+          · have h2 : (framingTE h1).2 = some Err.unknown := hf
+            rw [h0] at h2; cases h2
+  refine ⟨?_, hfl, hmem⟩
+  intro hb
+  rcases hfl hb with h1 | h1 <;> exact List.ne_nil_of_mem h1
 
-/-! ## 5. open findings: concrete witnesses (decided by evaluation) -/
+/-- Stack: no spurious framing error — a request without Content-Length and Transfer-Encoding is
+never flagged for framing. -/
+theorem stack_no_spurious_framing_error (env : Env) (h : Header) (hc : index h kCL = []) (ht : index h kTE = []) :
+    Err.cl ∉ (stackReq env h).2 ∧ Err.te ∉ (stackReq env h).2 := by
+  have hm := (stack_framing_flagged env h).2.2
+  have hf : (framingHeader h).2 = none := by rw [framing_no_spurious_error h hc ht]
+  constructor
+  · intro hin; have := (hm .cl (by decide)).mp hin; rw [hf] at this; cases this
+  · intro hin; have := (hm .te (by decide)).mp hin; rw [hf] at this; cases this
+
+/-! ## 5. findings: concrete witnesses (decided by evaluation) -/
 
 def env0 : Env :=
   { major := 1, minor := 1, name := strBytes "martian", boundary := strBytes "00", scheme := strBytes "http",
     host := strBytes "example.com", url := strBytes "http://example.com/", remote := strBytes "192.0.2.1:4711" }
 
-/-- F14b: `Transfer-Encoding: gzip`. -/
+/-- F14b (repaired): `Transfer-Encoding: gzip`. -/
 def hTE : Header := [(kTE, [strBytes "gzip"])]
-/-- F14b: `Connection: content-length` with `Content-Length: 5` and `Content-Length: 6`. -/
+/-- F14b (repaired): `Connection: content-length` with `Content-Length: 5` and `Content-Length: 6`. -/
 def hCLListed : Header := [(kConnection, [strBytes "content-length"]), (kCL, [strBytes "5", strBytes "6"])]
-/-- F14b: `Connection: via` with a Via chain naming this instance. -/
+/-- F14b (open): `Connection: via` with a Via chain naming this instance. -/
 def hViaListed : Header := [(kConnection, [strBytes "via"]), (kVia, [strBytes "1.1 martian-00"])]
-/-- F14c: conflicting Content-Length and a Via chain naming this instance. -/
+/-- F14c (repaired): conflicting Content-Length and a Via chain naming this instance. -/
 def hLoopCL : Header := [(kCL, [strBytes "5", strBytes "6"]), (kVia, [strBytes "1.1 martian-00"])]
 
 theorem teBad_hTE : teBad hTE := by unfold teBad; decide
 theorem clConflict_hCLListed : clConflict hCLListed :=
   ⟨strBytes "5", by decide, strBytes "6", by decide, by decide, by decide, by decide⟩
 
-/-- F14b witness 1: the framing modifier alone flags `hTE`, the stack does not. -/
-theorem framing_counterexample_te : (framingHeader hTE).2 = some .te ∧ ¬ FramingFlagged env0 hTE := by
-  refine ⟨by decide, ?_⟩
-  intro hf
-  exact hf (Or.inr teBad_hTE) (by decide)
+/-- Test (the three repaired witnesses, evaluated): the stack now answers `te`, `cl` and
+`cl`+`loop` with the round trip skipped; in all three the hop-by-hop headers are gone and, where
+no loop is seen, the Via entry is stamped. Against a tree without the repairs this fails. -/
+theorem repaired_witnesses :
+    (stackReq env0 hTE).2 = [.te] ∧ keys (stackReq env0 hTE).1.hdr = [kXFProto, kXFHost, kXFUrl, kXFF, kVia] ∧
+    (stackReq env0 hCLListed).2 = [.cl] ∧ keys (stackReq env0 hCLListed).1.hdr = [kXFProto, kXFHost, kXFUrl, kXFF, kVia] ∧
+    (stackReq env0 hLoopCL).2 = [.cl, .loop] ∧ (stackReq env0 hLoopCL).1.skip = true ∧
+    (stackRes (stackReq env0 hLoopCL).1.loopKey { hdr := [], status := 200 }).1.status = 400 := by decide
 
-/-- F14b witness 2: Connection-listed Content-Length hides the conflict from the stack. -/
-theorem framing_counterexample_cl_listed :
-    (framingHeader hCLListed).2 = some .cl ∧ ¬ FramingFlagged env0 hCLListed := by
-  refine ⟨by decide, ?_⟩
-  intro hf
-  exact hf (Or.inl clConflict_hCLListed) (by decide)
-
-/-- F14b witness 3: Connection-listed Via hides the loop from the stack (the via modifier alone sees it). -/
+/-- F14b open witness: Connection-listed Via hides the loop from the stack (the via modifier alone sees it). -/
 theorem loop_counterexample_via_listed :
     (viaReq env0 { hdr := hViaListed }).2 = some .loop ∧ ¬ LoopStopped env0 hViaListed := by
   refine ⟨by decide, ?_⟩
-  intro hf
-  have := (hf (by decide)).1
-  revert this
-  decide
-
-/-- F14c witness: the framing error pre-empts loop detection (first-error semantics). -/
-theorem loop_counterexample_after_framing_error : ¬ LoopStopped env0 hLoopCL := by
   intro hf
   have := (hf (by decide)).1
   revert this
@@ -441,20 +510,18 @@ def hGood : Header := [(strBytes "Accept", [strBytes "a", strBytes "b"]), (kConn
 /-- Test (evaluation on one concrete header): forwarded without error; Keep-Alive, X-Custom and
 Connection are gone; Accept is untouched; Via and X-Forwarded-For were appended to. -/
 example : (stackReq env0 hGood).2 = [] ∧
-    keys (stackReq env0 hGood).1.hdr = [strBytes "Accept", kXFProto, kXFHost, kXFUrl, kXFF, kCL, kVia] ∧
+    keys (stackReq env0 hGood).1.hdr = [strBytes "Accept", kCL, kXFProto, kXFHost, kXFUrl, kXFF, kVia] ∧
     index (stackReq env0 hGood).1.hdr (strBytes "Accept") = [strBytes "a", strBytes "b"] ∧
     index (stackReq env0 hGood).1.hdr kVia = [strBytes "1.0 fred, 1.1 p, 1.1 martian-00"] ∧
     index (stackReq env0 hGood).1.hdr kXFF = [strBytes "10.0.0.1, 192.0.2.1"] ∧
     index (stackReq env0 hGood).1.hdr kCL = [strBytes "5"] := by decide
 
-/-- Hypotheses of `loop_stopped_partial` are satisfiable together with the loop premise. -/
-example : kVia ∉ removedKeys [(kVia, [strBytes "1.0 fred, 1.1 martian-00"])] ∧
-    stackFramingErr env0 [(kVia, [strBytes "1.0 fred, 1.1 martian-00"])] = none ∧
-    hasLoop (join (index [(kVia, [strBytes "1.0 fred, 1.1 martian-00"])] kVia) commaSp) (tag env0) = true := by decide
+/-- Hypothesis of `loop_stopped_partial` is satisfiable together with the loop premise (and a framing error). -/
+example : kVia ∉ removedKeys hLoopCL ∧ hasLoop (join (index hLoopCL kVia) commaSp) (tag env0) = true ∧ clConflict hLoopCL :=
+  ⟨by decide, by decide, strBytes "5", by decide, strBytes "6", by decide, by decide, by decide, by decide⟩
 
-/-- Hypotheses of `framing_flagged_partial` are satisfiable. -/
-example : kCL ∉ removedKeys [(kCL, [strBytes "5, 6"])] ∧ clConflict [(kCL, [strBytes "5, 6"])] :=
-  ⟨by decide, strBytes "5", by decide, strBytes " 6", by decide, by decide, by decide, by decide⟩
+/-- The premise of `stack_framing_flagged` is satisfiable in both ways, also Connection-listed. -/
+example : teBad hTE ∧ clConflict hCLListed ∧ kCL ∈ removedKeys hCLListed := ⟨teBad_hTE, clConflict_hCLListed, by decide⟩
 
 /-- `connection_token_any_case` is not vacuous. -/
 example : toLower (strBytes "KEEP-alive") = toLower (strBytes "Keep-Alive") ∧
